@@ -244,27 +244,28 @@ def dfa_isomorphic(D1: DFA, D2: DFA) -> bool:
         for a in Sigma:
             q1_ = D1.delta[q1, a]
             q2_ = D2.delta[q2, a]
-            if matching[q1_, q2_]:
+            if not matching[q1_, q2_]:
                 if (q1_ in F1) == (q2_ in F2):
                     matching[q1_, q2_] = True
                     to_inspect.add((q1_, q2_))
                 else:
                     return False
 
+    # N.B. only reachable states have a matching state
     for q1 in Q1:
-        count = 1
+        count = 0
         for q2 in Q2:
             if matching[q1, q2]:
                 count = count + 1
-        if count != 1:
+        if count > 1:
             return False
 
     for q2 in Q2:
-        count = 1
+        count = 0
         for q1 in Q1:
             if matching[q1, q2]:
                 count = count + 1
-        if count != 1:
+        if count > 1:
             return False
 
     return True
